@@ -37,7 +37,8 @@ DYNAMIC = {"setattr", "exec", "eval", "globals", "locals", "vars", "__import__",
 
 
 class WriteSite:
-    def __init__(self, target, where, func, how, via_func=None, via_where=None):
+    def __init__(self, target, where, func, how, via_func=None, via_where=None, attr=None):
+        self.attr = attr          # attribute of the written object that holds the mutated container / value, if known
         self.target = target      # ('global', mod, name)
         self.where = where        # the statement that performs the store
         self.func = func
@@ -46,11 +47,11 @@ class WriteSite:
         self.via_where = via_where or where
 
     def key(self):
-        return (self.target, self.where, self.func, self.how, self.via_func, self.via_where)
+        return (self.target, self.where, self.func, self.how, self.via_func, self.via_where, self.attr)
 
     def to_json(self):
         return {"target": list(self.target), "where": self.where, "function": self.func, "how": self.how,
-                "via_function": self.via_func, "via_where": self.via_where}
+                "via_function": self.via_func, "via_where": self.via_where, "attr": self.attr}
 
 
 class Summary:
@@ -721,7 +722,7 @@ class FuncAnalyzer(ast.NodeVisitor):
     # ---- effects
     def mutate(self, tagset, node, how, origin=None):
         """origin: the statements (where, func, how) inside callees that perform the write, when known."""
-        sites = list(origin) if origin else [(self.where(node), self.fi.qual, how)]
+        sites = list(origin) if origin else [(self.where(node), self.fi.qual, how, self.attr_of(node))]
         for t in tagset:
             if t[0] == "param":
                 self.sum.mut_params.add(t[1])
@@ -732,11 +733,26 @@ class FuncAnalyzer(ast.NodeVisitor):
             elif t[0] == "global":
                 lst = self.sum.mut_globals.setdefault(t, [])
                 have = {x.key() for x in lst}
-                for (wh, fn, hw) in sites:
-                    w = WriteSite(t, wh, fn, hw, self.fi.qual, self.where(node))
+                for (wh, fn, hw, at) in sites:
+                    w = WriteSite(t, wh, fn, hw, self.fi.qual, self.where(node), at)
                     if w.key() not in have:
                         lst.append(w)
                         have.add(w.key())
+
+    def attr_of(self, node):
+        """Name of the attribute through which a store goes: x.A = v, x.A[i] = v, x.A.append(v), del x.A[i]."""
+        n = node
+        if isinstance(n, ast.Call) and isinstance(n.func, ast.Attribute):
+            n = n.func.value
+        elif isinstance(n, ast.Subscript):
+            n = n.value
+        elif isinstance(n, ast.Attribute):
+            return n.attr
+        if isinstance(n, ast.Subscript):
+            n = n.value
+        if isinstance(n, ast.Attribute):
+            return n.attr
+        return None
 
     def store_into(self, dst, src, node):
         src = {t for t in src if t not in (IMM,)}
